@@ -110,6 +110,13 @@ CHECKS.update({
    note="Gossip v1 only; fixed key material; zombie marking after a failed funding check is not counted as a graph change; the completeness half (valid message applied unless a documented defence drops it) is stronger than the property and reported under its own signature; store batch interval 0 instead of 500 ms (a mutex held across the virtual timer wait freezes a bubble).", ref="§4 C20"),
 })
 
+CHECKS.update({
+ "C08": dict(cat="exploration", engine="explore+synctest (in-package htlcswitch, -tags dev)",
+   technique="stateless explicit-state exploration (shared explore engine) of the unmodified three-hop htlcswitch network inside testing/synctest bubbles in worker subprocesses: every peer message is captured into explorer-owned FIFO wires and re-injected, so message order, timer ticks, hold-invoice resolution, slow wires, link cuts and forwarder restarts are explicit enumerable events; bound through a go -overlay in-package test, no source hooks",
+   text="Exhaustive, deviation-bounded enumeration of event schedules of the real switches, links, mailboxes, circuit maps, forwarding packages, channels and registries in virtual time; every quiescent point is judged by preimage-provenance and fail-only-when-removed oracles and every terminal quiescence by conservation to the msat, mirrored channel ends, no dangling HTLC or circuit and exactly one result per payment.",
+   note="Quick = 47 spaces (<=1 deviation of any kind, plus slow-wire x restart product on a two-payment batch), thorough = 327 spaces (<=2 deviations with <=2 faults); determinism gated (4 x 20 replays, per-step key self-check, 3x replay before any report; a replay divergence is never a violation); one lnd-internal mailbox add/response race is pinned to its add-first order and handler-internal goroutine interleavings are not enumerated (the property's own quantifier leaves them to the runtime).", ref="§4 C08"),
+})
+
 NOT_YET = "harness not built yet in this round (planned, see DESIGN.md §4)"
 
 def main():
